@@ -4,9 +4,10 @@ import sys, os
 sys.path.insert(0, os.path.dirname(os.path.abspath(__file__)))
 import arrays_check
 import fpspecial
+import bigarrays
 arrays_check.run('C02', 'bulk',
                  'stream biased to ApplySlice/CopyFrom/Reshape/Unroll/Contiguous/Max/Min/arrayops over all source/destination contiguity combinations, plus the integer helpers against their arithmetic definitions',
                  ['ApplySlice/CopyFrom/arrayops fast path = index loop is proved for non-overlapping views (C02_*_fast_eq_slow) and false for partially overlapping ones (known finding overlapping-copy)',
                   'history values are small integers, exact in all 8 element types; the model runs once with V = Z; IEEE special values (NaN, infinities, signed zeros, subnormals) are covered by a separate stream judged by the element-by-element definition (tools/fpspecial.py), an instance of the V-generic theorems'],
-                 extra=fpspecial.fp_specials,
+                 extra=lambda c: dict(fpspecial.fp_specials(c), **bigarrays.big_arrays(c)),
                  allowed=None, use_iops=True, oracle='spec')
